@@ -86,6 +86,11 @@ type c09Case struct {
 	// sloconfig.GetNodeColocationStrategy(cluster config, node), so that the per-node ratio labels apply.
 	ViaConfig bool
 	Label     [2]c09Label // node.koordinator.sh/cpu-reclaim-ratio, node.koordinator.sh/memory-reclaim-ratio
+	// strategy layers between the cluster strategy and the ratio labels (only used by TestVerifC09BatchStrategyLayers,
+	// see c09_strategy_test.go): node-pool configs of the cluster configuration and the node's strategy annotation
+	PoolLabels map[string]string
+	NodeCfgs   []c09Layer
+	Anno       *c09Layer
 }
 
 // c09Label is a per-node ratio label. Documented rule (apis/extension/node_colocation.go, sloconfig.getNodeReclaimPercent):
@@ -591,8 +596,10 @@ func (cs *c09Case) build(updateTime *metav1.Time) *c09Objects {
 				node.Labels[keys[r]] = cs.Label[r].Str
 			}
 		}
+		cfg := &configuration.ColocationCfg{ColocationStrategy: *st}
+		cs.addLayers(cfg, node)
 		// what NodeResourceReconciler.calculateNodeResource does with the cluster configuration
-		o.strategy = sloconfig.GetNodeColocationStrategy(&configuration.ColocationCfg{ColocationStrategy: *st}, node)
+		o.strategy = sloconfig.GetNodeColocationStrategy(cfg, node)
 	}
 
 	pl := &corev1.PodList{}
